@@ -192,6 +192,7 @@ def st_case(draw: st.DrawFn, tier: str, sut: str) -> dict:
         ),
         "per_gen": draw(st.lists(st.sampled_from([1, 1, 1, 1, 2, 2, 2, 3, 3, None, None, None, 0]), min_size=1, max_size=3)),
         "timeouts": _st_timeouts(draw),
+        "timeout_style": draw(st.sampled_from(["yield", "yield", "asyncio", "backend"])),
         "on_bad": draw(st.sampled_from(["continue", "reyield", "return"])),
         "on_timeout": draw(st.sampled_from(["continue", "reyield", "return"])),
         "close_at": draw(st.one_of(st.none(), st.none(), st.integers(0, n - 1))),
@@ -492,7 +493,16 @@ class ShapeHandler(AsyncStreamRequestHandler[Any, Any]):
                 self.received_at_yield[len(self.log)] = self.transport.total_received if self.transport is not None else -1
                 self.log.append(("yield", gid, self._now(), timeout))
                 try:
-                    req = yield timeout
+                    style = sh.get("timeout_style", "yield")
+                    if style == "yield" or timeout is None:
+                        req = yield timeout
+                    elif style == "asyncio":
+                        # the documented alternative to yielding the timeout ("Using with / asyncio")
+                        async with asyncio.timeout(timeout):
+                            req = yield
+                    else:
+                        with client.backend().timeout(timeout):
+                            req = yield
                 except GeneratorExit:
                     self.log.append(("gen_exit", gid, self._now()))
                     raise
@@ -687,6 +697,17 @@ def run_case(case: dict) -> Outcome:
 
     entry = tl.entry
     info = {"sut": case["sut"], "path": case["path"], "serializer": case["spec"]["kind"], "end": model.end}
+    # nobody cancels anything before the tear-down: a CancelledError thrown into the handler while the server is serving
+    # is a cancellation that outlived whoever asked for it (e.g. the handler's own, already exited, timeout scope)
+    for e in res["log"]:
+        if e[0] == "exc" and e[3] == "CancelledError":
+            raise Violation(
+                "spurious-cancellation",
+                f"the request handler (generator #{e[1]}) was cancelled at t={e[2]} although neither the server nor the test cancelled anything "
+                f"(timeout style: {shape.get('timeout_style', 'yield')})",
+                log=[_show(x) for x in res["log"][-10:]],
+                **info,
+            )
     classes = [f"path-{case['path']}", f"kind-{case['spec']['kind']}", f"end-{model.end}"]
 
     # zero-timeout yields: find the first ambiguous one (comparison stops there)
